@@ -109,6 +109,33 @@ def op_semantics(arrays, op, il):
     raise EngineSignal(f"unknown op {op!r}")
 
 
+def promotion_casts_only(il):
+    """Which casts may be read as the identity: those NumPy's own promotion
+    performs when the raised operation is applied to the operands (the target
+    dtype absorbs the operand's: int64 -> float64 inside ``a_int + b``).  A
+    cast *away* from the operand's dtype (``astype(float32)`` of a float64
+    array, ``astype(int8)``) changes values; it stays an uninterpreted
+    function, so an operation that ignores it does not reproduce the lambda.
+    Where the operand's dtype is not evident the cast is read as identity."""
+    def policy(e):
+        inner = e.inner_expr
+        name = None
+        if isinstance(inner, p.Subscript) and isinstance(inner.aggregate,
+                                                         p.Variable):
+            name = inner.aggregate.name
+        elif isinstance(inner, p.Variable):
+            name = inner.name
+        if name is None or name not in il.bindings:
+            return True
+        src = np.dtype(il.bindings[name].dtype)
+        dst = np.dtype(e.dtype)
+        try:
+            return np.promote_types(src, dst) == dst
+        except TypeError:
+            return True
+    return policy
+
+
 def raise_and_check(h, clause, il, arrays, expect=None):
     from pytato.raising import UnknownIndexLambdaExpr
     try:
@@ -131,7 +158,8 @@ def raise_and_check(h, clause, il, arrays, expect=None):
     ivars = [z3.Int(f"i{d}") for d in range(len(il.shape))]
     box = in_box(ivars, il.shape)
     D = Den(arrays, il.bindings, lambda a: h.interp.getattr(a, "shape"),
-            size_param=size_param_term, cast_identity=True)
+            size_param=size_param_term,
+            cast_identity=promotion_casts_only(il))
     D.inline_index_lambdas = False
     got = D.top(il.expr, {f"_{d}": v for d, v in enumerate(ivars)})
     try:
@@ -233,6 +261,69 @@ def producers(tier):
                 and op.args[0] is a
         P[f"{fn}"] = mk
 
+    # 0-dimensional operands (the producers write ``in_0[()]`` / a bare
+    # variable for them): math calls, two-argument calls with a scalar,
+    # binary operations mixing ranks, where, logical not
+    def zd(h, name):
+        return mk_placeholder(h, name, shape=[])
+    for fn, c99 in [("sin", "sin"), ("abs", "abs"), ("isnan", "isnan"),
+                    ("exp", "exp")]:
+        def mk0(h, fn=fn, c99=c99):
+            s_ = zd(h, "s")
+            return getattr(pt, fn)(s_), lambda op: isinstance(
+                op, C99CallOp) and op.function == c99 and len(op.args) == 1 \
+                and op.args[0] is s_
+        P[f"{fn};0d"] = mk0
+
+    def atan2_0d(h):
+        s_, t_ = zd(h, "s"), zd(h, "t")
+        return pt.arctan2(s_, t_), lambda op: isinstance(op, C99CallOp) and \
+            op.function == "atan2" and op.args[0] is s_ and op.args[1] is t_
+    P["arctan2;0d"] = atan2_0d
+
+    def atan2_sc(h):
+        t_ = zd(h, "t")
+        return pt.arctan2(0.5, t_), lambda op: isinstance(op, C99CallOp) and \
+            op.function == "atan2" and op.args[0] == 0.5 and op.args[1] is t_
+    P["arctan2;scalar-left;0d"] = atan2_sc
+
+    def atan2_sc1(h):
+        a, _ = two(h, "n", "n")
+        return pt.arctan2(a, 0.5), lambda op: isinstance(op, C99CallOp) and \
+            op.function == "atan2" and op.args[0] is a and op.args[1] == 0.5
+    P["arctan2;scalar-right"] = atan2_sc1
+    for nm, (f, bt) in binops.items():
+        def mk0(h, f=f, bt=bt):
+            s_ = zd(h, "s")
+            a, _ = two(h, "n", "n")
+            return f(s_, a), lambda op: isinstance(op, BinaryOp) and \
+                op.binary_op == bt and op.x1 is s_ and op.x2 is a
+        P[f"{nm};0d-array"] = mk0
+
+        def mk00(h, f=f, bt=bt):
+            s_, t_ = zd(h, "s"), zd(h, "t")
+            return f(s_, t_), lambda op: isinstance(op, BinaryOp) and \
+                op.binary_op == bt and op.x1 is s_ and op.x2 is t_
+        P[f"{nm};0d-0d"] = mk00
+
+    def where0(h):
+        c_, s_, t_ = zd(h, "c"), zd(h, "s"), zd(h, "t")
+        return pt.where(c_, s_, t_), lambda op: isinstance(op, WhereOp) and \
+            op.condition is c_ and op.then is s_ and op.else_ is t_
+    P["where;0d"] = where0
+
+    def lnot0(h):
+        s_ = zd(h, "s")
+        return pt.logical_not(s_), lambda op: isinstance(op, LogicalNotOp) \
+            and op.x is s_
+    P["logical_not;0d"] = lnot0
+
+    def zl0(h):
+        s_ = zd(h, "s")
+        return pt.zeros_like(s_), lambda op: isinstance(
+            op, (FullOp, ZerosLikeOp))
+    P["zeros_like;0d"] = zl0
+
     def atan2(h):
         a, b = two(h, "n", "n")
         return pt.arctan2(a, b), lambda op: isinstance(op, C99CallOp) and \
@@ -270,11 +361,20 @@ def producers(tier):
             lambda op: isinstance(op, BroadcastOp) and op.x is s
     P["broadcast_to"] = bto
 
-    def astype(h):
-        a, _ = two(h, "nn", "nn")
-        return a.astype(np.float32), lambda op: isinstance(op, BroadcastOp) \
-            and op.x is a
-    P["astype"] = astype
+    # astype is *not* one of the operations the property lists (fill, binary
+    # operation, math call, where, reduction, broadcast, logical not), and a
+    # cast away from the operand's dtype changes values: whatever the raiser
+    # answers must reproduce the lambda, so "unknown" is the expected answer
+    # and a BroadcastOp of the operand is a misreading (expectation None: no
+    # particular operation is demanded, soundness is)
+    for src, dst in ((np.float64, np.float32), (np.int64, np.int8),
+                     (np.int64, np.float64), (np.float64, np.float64),
+                     (np.int32, np.int64)):
+        def astype(h, src=src, dst=dst):
+            a = mk_placeholder(h, "a", shape=[h.nonneg("n0"), h.nonneg("n1")],
+                               dtype=src)
+            return a.astype(dst), None
+        P[f"astype;{np.dtype(src).name}->{np.dtype(dst).name}"] = astype
     for fn in ("sum", "amax", "prod", "all"):
         for r, ax in [(1, (0,)), (2, (0,)), (2, (1,)), (2, (0, 1)),
                       (3, (0, 2)), (3, (1,))]:
